@@ -515,7 +515,14 @@ impl Prop for C19 {
                             n += 1;
                             crate::crumb::mark(ctx.case, &[n as u32]);
                             let args: Vec<String> = ["query", "-g", g.id, "-i", "127.0.0.1", "-p", &port.to_string(), "-f", format, "-o", mode, "--read-timeout", "1", "--connect-timeout", "1"].iter().map(|s| s.to_string()).collect();
-                            let r = run_cli(&args);
+                            let mut r = run_cli(&args);
+                            // a timeout against the healthy loopback server can only be scheduling noise: run again
+                            // (a deterministic failure fails three times)
+                            for _ in 0 .. 2 {
+                                if r.code != Some(0) && lib_generic.is_some() && (r.stderr.contains("PacketReceive") || r.stderr.contains("PacketSend")) {
+                                    r = run_cli(&args);
+                                }
+                            }
                             let want = if mode == "generic" { &lib_generic } else { &lib_specific };
                             let verdict: Option<(String, String)> = match (want, r.code) {
                                 (None, Some(c)) if c != 0 && c != 101 && !r.stderr.contains("panicked at") => None, // library fails too: clean error
